@@ -26,11 +26,11 @@ OWN = {
 RESULT_KEYS = ("res", "ch", "heap", "val", "kind", "err", "equal", "sel", "path", "note")
 
 
-def export_scripts(scratch, n, depth, dest, cfg="GraphMachine_sim.cfg"):
-    """TLC simulation of GraphMachine prints the calls of each behaviour; they become harness scripts."""
+def export_scripts(scratch, n, depth, dest, cfg="GraphMachine_sim.cfg", module="GraphMachine"):
+    """TLC simulation of a machine that prints the calls of each behaviour; they become harness scripts."""
     workers = 16
     per = max(1, (n + workers - 1) // workers)
-    out, rc, gen, dist = tlc(scratch, "GraphMachine", cfg, workers=workers, timeout=1200, heap="8g",
+    out, rc, gen, dist = tlc(scratch, module, cfg, workers=workers, timeout=1200, heap="8g",
                              sim="num=%d" % per, extra=["-depth", str(depth), "-seed", str(seed())])
     nscripts = 0
     with open(dest, "w") as f:
